@@ -43,7 +43,11 @@ type Extractor struct {
 	resolver        func(core.IndirectRef) (core.Object, error) // Reference resolver
 	xobjectDepth    int                                         // Current XObject nesting depth
 	maxXObjectDepth int                                         // Maximum nesting depth (prevents infinite recursion)
+	xobjectCalls    int                                         // XObject invocations so far in this extraction
 }
+
+// maxXObjectCalls bounds the XObject invocations of one extraction.
+const maxXObjectCalls = 10000
 
 // NewExtractor creates a new text extractor with initialized graphics state.
 func NewExtractor() *Extractor {
@@ -172,6 +176,7 @@ func resolveIfRef(obj core.Object, resolver func(core.IndirectRef) (core.Object,
 // Extract extracts text fragments from parsed content stream operations.
 func (e *Extractor) Extract(operations []contentstream.Operation) ([]TextFragment, error) {
 	e.fragments = make([]TextFragment, 0)
+	e.xobjectCalls = 0
 
 	for i, op := range operations {
 		if err := e.processOperation(op); err != nil {
@@ -373,6 +378,13 @@ func (e *Extractor) invokeXObject(name string) error {
 	// Check recursion depth
 	if e.xobjectDepth >= e.maxXObjectDepth {
 		return fmt.Errorf("XObject nesting too deep (max %d)", e.maxXObjectDepth)
+	}
+
+	// The depth limit alone leaves room for forms that invoke forms several
+	// times on every level: the invocations of one extraction are bounded too
+	e.xobjectCalls++
+	if e.xobjectCalls > maxXObjectCalls {
+		return fmt.Errorf("too many XObject invocations (max %d)", maxXObjectCalls)
 	}
 
 	// Get XObject dictionary from resources
